@@ -13,6 +13,21 @@ Implementation side
   * stream `gate`: random .top files (1-3 molecule types, 1-5 residues, bonds/constraints forming trees,
     cycles, several components, isolated atoms; angle and dihedral lines over bonded atoms and across missing bonds) read by `Topology.from_gmx_topfile`, then the real
     `_check_molecules(topology.molecules)`; a few of them through the complete `gen_coords`.
+Added input dimensions (round 5; every random choice from `derived_rng`, so the older cases of a seed are unchanged):
+  * `missing`: ring-like monomers with a ring-opening link (`[ !bonds ]` for the ring bond + bond to the next residue,
+    applied at the first residue and further down); generated links decorated with the vermouth link sections polyply
+    does not act on (`[ !bonds ]`, `[ !angles ]`, `[ !constraints ]`, `[ features ]`, `[ molmeta ]`; `[ non-edges ]` and
+    `[ patterns ]` come from the generator); node keys that are not 0..n-1 (start 1, 10/20/30, gaps, reversed), resids
+    from 0 / an offset (gaps: withheld, notes/C10_findings.md 3), residue names that contain each other; `by_atom_id`
+    links with one interaction of each bonded section; the command run a second time in the same process / after a
+    failed call (oracle on the LATER call); > 20 realised links in one molecule.
+  * `direct`: 160 (thorough: all) of the exhaustive instances relabelled (node keys, insertion order, atom keys, resids,
+    nested residue names).
+  * `gate`: the complete `gen_coords` with starting structures — `-mc` (one position per residue), `-c` (atoms), both,
+    `-res` — covering ALL or SOME residues, for connected and disconnected molecules (oracle: refuse iff the atoms of a
+    molecule are not all connected, whatever is supplied); the disconnected molecule type not first, `[ molecules ]`
+    lines reordered / repeated / counts up to 25; virtual sites (connected through their construction); nested residue
+    names; resid offsets.
 Model side (`Model/C10Missing.lean`): `findMissingEdges` (correspondence with (a)), `specMissing` — the
 property's own statement, evaluated on the REQUESTED residue-graph edges, the generator's residue
 ownership of atoms and the bond graph of the real output molecule — compared with the warnings of (b);
@@ -24,6 +39,7 @@ import json
 import logging
 import os
 import pathlib
+import random
 import re
 import tempfile
 
@@ -85,8 +101,71 @@ def names_both(text, res_a, res_b):
 
 # ------------------------------------------------------------------------------------------ stream missing
 
+def derived_rng(rng, label):
+    """a generator for the ADDED input dimensions: derived from the state of the run's generator without consuming
+    it, so that the cases a seed produced before the dimension was added stay what they were"""
+    return random.Random("c10-extra|%s|%r" % (label, rng.getstate()[1][:4]))
+
+
+def link_extra_text(link):
+    """the parts of a link definition `ffgen_c02.render` has no field for: `removed` = [[section, [atom tokens],
+    [params]]] -> `[ !section ]` lines (vermouth: interactions the link takes out), `features` = [names] ->
+    `[ features ]`"""
+    lines, last = [], None
+    for section, atoms, params in link.get("removed", []):
+        if section != last:
+            lines.append("[ !%s ]" % section)
+            last = section
+        lines.append(" ".join(list(atoms) + list(params)))
+    if link.get("features"):
+        lines += ["[ features ]", " ".join(link["features"])]
+    return "".join(line + "\n" for line in lines)
+
+
+def render_case(case):
+    """`ffgen_c02.render`, link by link, plus the link sections only this check generates and `raw_links` (complete
+    `[ link ]` definitions as text, e.g. `by_atom_id` links)"""
+    texts = G.render(dict(case, links=[]))
+    ff_text = texts["ff"] or ""
+    for link in case.get("links", []):
+        ff_text += G.render(dict(blocks=[], links=[link]))["ff"] + link_extra_text(link)
+    for raw in case.get("raw_links", []):
+        ff_text += raw if raw.endswith("\n") else raw + "\n"
+    return dict(ff=ff_text or None, itp=texts["itp"])
+
+
+def build_case(case, tmpdir):
+    """the real force field (repository's parsers on the rendered files) and the real MetaMolecule of a case
+    (`ffgen_c02.build` with this module's renderer)"""
+    import networkx as nx
+    from polyply.src.load_library import load_ff_library
+    from polyply.src.meta_molecule import MetaMolecule
+    texts = render_case(case)
+    paths = []
+    for ext in ("ff", "itp"):
+        if texts[ext]:
+            path = os.path.join(tmpdir, "case." + ext)
+            with open(path, "w") as handle:
+                handle.write(texts[ext])
+            paths.append(pathlib.Path(path))
+    force_field = load_ff_library("verif", None, paths)
+    graph = nx.Graph()
+    from_itp = {int(k): v for k, v in case["graph"].get("from_itp", {}).items()}
+    for key, resid, resname in case["graph"]["nodes"]:
+        attrs = dict(resid=resid, resname=resname)
+        if key in from_itp:
+            attrs["from_itp"] = from_itp[key]
+        graph.add_node(key, **attrs)
+    for u, v, linktype in case["graph"]["edges"]:
+        if linktype is None:
+            graph.add_edge(u, v)
+        else:
+            graph.add_edge(u, v, linktype=linktype)
+    return force_field, MetaMolecule(graph, force_field=force_field, mol_name="verif")
+
+
 def write_files(case, tmp):
-    texts = G.render(case)
+    texts = render_case(case)
     paths = []
     for ext in ("ff", "itp"):
         if texts[ext]:
@@ -152,13 +231,12 @@ def one_missing_case(ctx, case):
     from polyply.src.graph_utils import find_missing_edges
     from polyply.src.gen_itp import gen_params
     replay = dict(stream="missing", case=case)
-    import random
     hist_rng = random.Random(json.dumps(case, sort_keys=True))
     with tempfile.TemporaryDirectory() as tmp:
         paths, seq = write_files(case, tmp)
         try:
             # (a) the stages, then find_missing_edges directly
-            force_field, meta = G.build(case, tmp)
+            force_field, meta = build_case(case, tmp)
             MapToMolecule(force_field).run_molecule(meta)
             ApplyLinks().run_molecule(meta)
             direct = [[m["resA"], int(m["idxA"]), m["resB"], int(m["idxB"])] for m in find_missing_edges(meta, meta.molecule)]
@@ -200,6 +278,25 @@ def one_missing_case(ctx, case):
             import polyply.src.gen_itp as gen_itp_module
             captured = {}
             original = getattr(gen_itp_module, "find_missing_edges", None)
+            # process history: the command has already run in this process, on the same files (`prior` = "twice") or
+            # on a sequence it has to reject (`prior` = "after-failure"); the oracle is applied to the LATER call
+            if case.get("prior") == "twice":
+                with capture_warnings():
+                    gen_params(name="verif", outpath=pathlib.Path(os.path.join(tmp, "first.itp")), inpath=paths, seq_file=seq)
+                ctx.tally(prior_call="ran")
+            elif case.get("prior") == "after-failure":
+                bad = os.path.join(tmp, "bad.json")
+                with open(bad, "w") as handle:
+                    json.dump(dict(directed=False, multigraph=False, graph={},
+                                   nodes=[dict(id=0, resname="NOSUCHRES", resid=1), dict(id=1, resname="NOSUCHRES", resid=2)],
+                                   links=[dict(source=0, target=1)], edges=[dict(source=0, target=1)]), handle)
+                try:
+                    with capture_warnings():
+                        gen_params(name="verif", outpath=pathlib.Path(os.path.join(tmp, "first.itp")), inpath=paths,
+                                   seq_file=pathlib.Path(bad))
+                    ctx.tally(prior_call="did-not-fail")
+                except (Exception, SystemExit):  # pylint: disable=broad-except
+                    ctx.tally(prior_call="failed")
 
             def spy(res_graph, molecule):
                 captured["medges"] = [[int(u), int(v)] for u, v in molecule.edges]
@@ -389,8 +486,268 @@ def gen_fromitp_case(rng):
     return dict(blocks=blocks, links=links, graph=dict(nodes=nodes, edges=edges, from_itp=from_itp))
 
 
+# ---- added input dimensions (all random choices from a derived generator, see `derived_rng`)
+
+def gen_ring_opening_case(xrng):
+    """ring-like monomers (first and last atom of the block are bonded) whose link bonds the last atom to the first
+    atom of the NEXT residue and lists the ring bond in `[ !bonds ]` (vermouth's syntax for interactions a link takes
+    out; sometimes also a block angle in `[ !angles ]`, or another bond of the link atom instead of the ring bond);
+    chains of 2-6 such residues, so the link applies at the FIRST residue of the molecule and further down; optionally
+    a tail of another residue type with or without a link to it"""
+    name = xrng.choice(["A", "RNG", "PA", "AA"])
+    natoms = xrng.randint(3, 5)
+    names = xrng.sample(G.ATOM_POOL, natoms)
+    first, last = names[0], names[-1]
+
+    def bond_params():
+        return ["1", "0.%d" % xrng.randint(10, 60), str(xrng.randint(100, 900))]
+    atoms = [dict(name=a, atype=xrng.choice(G.ATYPES), cg=1) for a in names]
+    ixns = [["bonds", [i, i + 1], bond_params(), {}] for i in range(natoms - 1)]
+    ixns.append(["bonds", xrng.choice([[natoms - 1, 0], [0, natoms - 1]]), bond_params(), {}])
+    if xrng.random() < 0.5:
+        ixns.append(["angles", [natoms - 2, natoms - 1, 0], ["1", str(xrng.randint(90, 180)), str(xrng.randint(10, 90))], {}])
+    blocks = [dict(name=name, nrexcl=1, syntax="ff", atoms=atoms, ixns=ixns)]
+    what = xrng.choice(["ring", "ring", "ring", "other-bond"])
+    removed_pair = [last, first] if what == "ring" else [names[-2], last]
+    if xrng.random() < 0.4:
+        removed_pair = removed_pair[::-1]
+    removed = [["bonds", removed_pair, []]]
+    if xrng.random() < 0.3:
+        removed.append(["angles", [names[-2], last, first], []])
+    link = dict(atoms=[], ixns=[["bonds", [last, "+" + first], bond_params(), {}]], edges=[], nonedges=[], patterns=[],
+                removed=removed)
+    if xrng.random() < 0.5:
+        link["header"] = {"resname": name}
+    else:
+        link["atoms"] = [[last, {"resname": name}], ["+" + first, {"resname": name}]]
+    if xrng.random() < 0.25:
+        link["features"] = ["ringopening"]
+    links = [link]
+    nres = xrng.randint(2, 6)
+    start = xrng.choice([1, 1, 1, 5])
+    nodes = [[k, start + k, name] for k in range(nres)]
+    if xrng.random() < 0.4:
+        other = "B" if name != "B" else "C"
+        n2 = xrng.randint(1, 3)
+        other_names = [first] + xrng.sample([a for a in G.ATOM_POOL if a != first], n2 - 1)
+        blocks.append(dict(name=other, nrexcl=1, syntax="ff", atoms=[dict(name=a, atype="P1", cg=1) for a in other_names],
+                           ixns=[["bonds", [i, i + 1], bond_params(), {}] for i in range(n2 - 1)]))
+        for _ in range(xrng.randint(1, 2)):
+            nodes.append([len(nodes), start + len(nodes), other])
+        if xrng.random() < 0.5:
+            links.append(dict(atoms=[[last, {"resname": name}], ["+" + first, {"resname": other}]],
+                              ixns=[["bonds", [last, "+" + first], bond_params(), {}]], edges=[], nonedges=[], patterns=[]))
+    edges = [[k, k + 1, None] for k in range(len(nodes) - 1)]
+    return dict(blocks=blocks, links=links, graph=dict(nodes=nodes, edges=edges))
+
+
+def decorate_links(case, xrng):
+    """give the links of a generated case the parts of vermouth's link syntax polyply does not act on (harmless on a
+    correct tree): `[ !bonds ]` / `[ !angles ]` / `[ !constraints ]` sections naming interactions of the reference
+    residue's block or the link's own bond, `[ features ]`, a `[ molmeta ]` the molecule does not carry"""
+    blocks = {b["name"]: b for b in case["blocks"]}
+    done = 0
+    for link in case["links"]:
+        if any(" " in a for _s, ats, _p, _m in link.get("ixns", []) for a in ats) or any("atomname" in attrs for _k, attrs in link.get("atoms", [])):
+            continue            # an atom-name choice (the parser re-derives the name from the key at every mention): leave it alone
+        removed = []
+        ref = [(key, attrs) for key, attrs in link.get("atoms", []) if key[:1] not in "+-<>*" and "|" not in str(attrs.get("resname", "|"))
+               and attrs.get("resname") in blocks]
+        roll = xrng.random()
+        if ref and roll < 0.6:
+            key, attrs = xrng.choice(ref)
+            block = blocks[attrs["resname"]]
+            natoms = len(block["atoms"])
+            own = [x for x in block["ixns"] if x[0] in ("bonds", "angles", "constraints") and all(a < natoms for a in x[1])]
+            with_atom = [x for x in own if key in [block["atoms"][a]["name"] for a in x[1]]]
+            if with_atom or own:
+                section, idxs, _params, _meta = xrng.choice(with_atom or own)
+                tokens = [block["atoms"][a]["name"] for a in idxs]
+                if xrng.random() < 0.3:
+                    tokens = tokens[::-1]
+                removed.append([section, tokens, []])
+        if roll >= 0.45:
+            two = [x for x in link.get("ixns", []) if x[0] in ("bonds", "constraints")]
+            if two:
+                section, tokens, _params, _meta = xrng.choice(two)
+                removed.append([section, list(tokens), []])
+        removed.sort(key=lambda r: r[0])
+        if removed:
+            link["removed"] = removed
+            done += 1
+        if xrng.random() < 0.3:
+            link["features"] = xrng.sample(["f1", "f2", "scfix"], xrng.choice([1, 2]))
+            done += 1
+        if xrng.random() < 0.12 and not link.get("molmeta"):
+            link["molmeta"] = {"verif_tag": xrng.choice(["x", "y"])}
+            done += 1
+    return done
+
+
+def remap_case(case, keys=None, resids=None, names=None):
+    """the same case with other node keys / resids / residue names (consistently in blocks, links and graph)"""
+    import copy
+    case = copy.deepcopy(case)
+    keys, resids, names = keys or {}, resids or {}, names or {}
+
+    def name_of(value):
+        return "|".join(names.get(part, part) for part in value.split("|")) if isinstance(value, str) else value
+    for block in case["blocks"]:
+        block["name"] = names.get(block["name"], block["name"])
+        for atom in block["atoms"]:
+            if "resname" in atom:
+                atom["resname"] = names.get(atom["resname"], atom["resname"])
+    for link in case["links"]:
+        for _key, attrs in link.get("atoms", []):
+            if "resname" in attrs:
+                attrs["resname"] = name_of(attrs["resname"])
+        if "resname" in link.get("header", {}):
+            link["header"]["resname"] = name_of(link["header"]["resname"])
+        for entry in link.get("nonedges", []):
+            if len(entry) > 2 and entry[2] and "resname" in entry[2]:
+                entry[2]["resname"] = name_of(entry[2]["resname"])
+        for pattern in link.get("patterns", []):
+            for _key, attrs in pattern:
+                if "resname" in attrs:
+                    attrs["resname"] = name_of(attrs["resname"])
+    graph = case["graph"]
+    graph["nodes"] = [[keys.get(k, k), resids.get(r, r), names.get(n, n)] for k, r, n in graph["nodes"]]
+    graph["edges"] = [[keys.get(u, u), keys.get(v, v), lt] for u, v, lt in graph["edges"]]
+    if "from_itp" in graph:
+        graph["from_itp"] = {str(keys.get(int(k), int(k))): names.get(v, v) for k, v in graph["from_itp"].items()}
+    return case
+
+
+def gen_numbering_case(xrng, max_res):
+    """a generated case whose residue graph uses other node keys (start 1, 10/20/30, gaps, reversed against the
+    resids), other resids (offset 7 / 28, start 0, gaps) and residue names that contain each other (A, AA, PA, PAA)"""
+    case = G.gen_case(xrng, max_res=max_res, removal=False)
+    old_keys = sorted(k for k, _r, _n in case["graph"]["nodes"])
+    old_resids = sorted(r for _k, r, _n in case["graph"]["nodes"])
+    style = xrng.choice(["start1", "tens", "gaps", "reversed", "same"])
+    if style == "start1":
+        keys = {k: k + 1 for k in old_keys}
+    elif style == "tens":
+        keys = {k: 10 * (k + 1) for k in old_keys}
+    elif style == "gaps":
+        picks = sorted(xrng.sample(range(0, 4 * len(old_keys) + 3), len(old_keys)))
+        keys = dict(zip(old_keys, picks))
+    elif style == "reversed":
+        keys = dict(zip(old_keys, reversed(old_keys)))
+    else:
+        keys = {}
+    rstyle = xrng.choice(["offset", "offset", "zero", "gaps", "same"])
+    if rstyle == "offset":
+        delta = xrng.choice([6, 27, 99]) - old_resids[0] + 1
+        resids = {r: r + delta for r in old_resids}
+    elif rstyle == "zero":
+        resids = {r: r - old_resids[0] for r in old_resids}
+    elif rstyle == "gaps":
+        # keeps neighbours of some pairs (so that `+` links still apply there) and opens gaps elsewhere
+        resids, shift = {}, 0
+        for r in old_resids:
+            if xrng.random() < 0.35:
+                shift += xrng.choice([1, 2, 5])
+            resids[r] = r + shift
+        if not os.environ.get("VERIF_C10_RESID_GAPS"):
+            # finding 3 (notes/C10_findings.md): resids with gaps give empty residue fragments (atoms are numbered
+            # 1, 2, 3, ... whatever the residue graph says) and link application raises IndexError; withheld
+            resids, rstyle = {}, "same(gaps-withheld)"
+    else:
+        resids = {}
+    pool = xrng.choice([["A", "AA", "PA", "PAA"], ["PAA", "AA", "A", "PA"], ["B", "AB", "ABB", "BA"]])
+    names = dict(zip(["A", "B", "C", "D"], pool)) if xrng.random() < 0.7 else {}
+    out = remap_case(case, keys=keys, resids=resids, names=names)
+    return out, "%s/%s/%s" % (style, rstyle, "nested-names" if names else "plain-names")
+
+
+EXPLICIT_SECTIONS = {"bonds": (2, ["1", "0.33", "4000"]), "constraints": (2, ["1", "0.31"]), "angles": (3, ["1", "120", "40"]),
+                     "pairs": (2, ["1"]), "exclusions": (2, []), "dihedrals": (4, ["1", "0", "5", "1"])}
+
+
+def gen_explicit_case(xrng, max_res):
+    """a generated case (often without the ordinary links) plus 1-2 links that address atoms by NUMBER (`[ molmeta ]
+    by_atom_id true`), each with one interaction of one bonded section (bonds, constraints, angles, pairs, exclusions,
+    dihedrals) whose atoms lie in two residues joined in the residue graph (or, less often, in two that are not)"""
+    case = G.gen_case(xrng, max_res=max_res, removal=False)
+    for link in case["links"]:
+        for _key, attrs in link["atoms"]:
+            if attrs.get("replace", {}).get("atomname", 0) is None:
+                attrs.pop("replace")
+    if xrng.random() < 0.5:
+        case["links"] = []
+    own = ownership(case)
+    edges = [(u, v) for u, v, _ in case["graph"]["edges"]]
+    keys = [n[0] for n in case["graph"]["nodes"]]
+    raw, used = [], []
+    for _ in range(xrng.choice([1, 1, 2])):
+        if edges and xrng.random() < 0.8:
+            u, v = xrng.choice(edges)
+        elif len(keys) >= 2:
+            u, v = xrng.sample(keys, 2)
+        else:
+            continue
+        section = xrng.choice(sorted(EXPLICIT_SECTIONS))
+        natoms, params = EXPLICIT_SECTIONS[section]
+        # atoms alternate between the two residues where they can: consecutive atoms of the line become edges
+        picks = []
+        for i in range(natoms):
+            side = own[u] if i % 2 == 0 else own[v]
+            free = [a for a in side if a not in picks] or [a for a in own[u] + own[v] if a not in picks]
+            if not free:
+                break
+            picks.append(xrng.choice(free))
+        if len(picks) != natoms:
+            continue
+        raw.append("[ link ]\n[ molmeta ]\nby_atom_id true\n[ %s ]\n%s\n" % (section, " ".join([str(a + 1) for a in picks] + params)))
+        used.append(section)
+    if raw:
+        case["raw_links"] = raw
+    return case, "+".join(sorted(used)) or "none"
+
+
+def gen_long_linked_chain(xrng, nres):
+    """more than 20 residues of a type WITH a link between neighbours, one residue of another type (no link to it)
+    far down the chain: more than 20 realised residue edges, the two around the odd residue missing"""
+    case = gen_ring_opening_case(xrng)
+    case["blocks"] = case["blocks"][:1]
+    case["links"] = case["links"][:1]
+    case["links"][0].pop("removed", None)
+    name = case["blocks"][0]["name"]
+    other = "B" if name != "B" else "C"
+    case["blocks"].append(dict(name=other, nrexcl=1, syntax="ff", atoms=[dict(name="X1", atype="P1", cg=1)], ixns=[]))
+    odd = nres - 2
+    case["graph"] = dict(nodes=[[k, k + 1, other if k == odd else name] for k in range(nres)],
+                         edges=[[k, k + 1, None] for k in range(nres - 1)])
+    return case
+
+
+def extra_missing_cases(ctx, xrng):
+    """the cases of the added dimensions, each with a label for the input distribution"""
+    out = []
+    for _ in range(ctx.budget(5, 60)):
+        out.append((gen_ring_opening_case(xrng), "ring-opening-link"))
+    for _ in range(ctx.budget(14, 200)):
+        case = gen_missing_case(xrng, ctx.budget(7, 10), False)
+        if decorate_links(case, xrng):
+            out.append((case, "link-with-ignored-sections"))
+    for _ in range(ctx.budget(14, 200)):
+        case, label = gen_numbering_case(xrng, ctx.budget(7, 10))
+        out.append((case, "numbering:" + label))
+    for _ in range(ctx.budget(8, 120)):
+        case, label = gen_explicit_case(xrng, ctx.budget(6, 9))
+        out.append((case, "explicit-link:" + label))
+    for prior in ["twice", "after-failure"] * ctx.budget(2, 10):
+        case = xrng.choice([gen_ring_opening_case, lambda r: gen_missing_case(r, 6, False)])(xrng)
+        case["prior"] = prior
+        out.append((case, "process-history:" + prior))
+    out.append((gen_long_linked_chain(xrng, xrng.choice([23, 24, 27])), "long-linked-chain"))
+    return out
+
+
 def run_missing(ctx, known):
     rng = ctx.rng
+    xrng = derived_rng(rng, "missing")
     allow_removal = "requested-edge-vanishes-after-atom-removal" in known
     cases = corpus_cases("missing")
     for _ in range(ctx.budget(260, 3000)):
@@ -401,6 +758,10 @@ def run_missing(ctx, known):
     # long chains without any link: 19, 20, 21, 25 and (thorough) 60 missing links in one molecule
     for nres in [20, 21, 22, 26] + ([61] if ctx.thorough else []):
         cases.append(gen_long_chain_case(rng, nres))
+    for case, label in extra_missing_cases(ctx, xrng):
+        cases.append(case)
+        ctx.tally(added_dimension=label.split(":")[0], **({"added_" + label.split(":")[0].replace("-", "_"): label.split(":", 1)[1]}
+                                                          if ":" in label else {}))
     items = [x for x in (one_missing_case(ctx, c) for c in cases) if x is not None]
     reqs = [r for item in items for r in item["reqs"]]
     answers = ctx.driver.ask(reqs) if reqs else []
@@ -479,13 +840,40 @@ def judge_direct(ctx, item, ans):
                             % (rec[1], rec[0], rec[3], rec[2], json.dumps(item["inst"])), replay)
 
 
+def direct_variants(instances, xrng, count):
+    """a sample of the exhaustive instances with other labels: residue-graph node keys that are not 0..n-1 (10/20/30,
+    gaps, start 1, reversed against the resids), nodes inserted in another order, atom keys with an offset, resids
+    from 0 / an offset / with gaps / descending, residue names that contain each other"""
+    out = []
+    for inst in xrng.sample(instances, min(count, len(instances))):
+        nkeys = [n[0] for n in inst["nodes"]]
+        kmap = xrng.choice([{k: 10 * (k + 1) for k in nkeys}, {k: k + 1 for k in nkeys}, {k: 3 * k + 2 for k in nkeys},
+                            dict(zip(nkeys, reversed(nkeys))), {k: k for k in nkeys}])
+        rstyle = xrng.choice(["zero", "offset", "gaps", "descending", "same"])
+        rmap = {"zero": lambda r: r - 1, "offset": lambda r: r + 27, "gaps": lambda r: 3 * r + 1, "descending": lambda r: 10 - r,
+                "same": lambda r: r}[rstyle]
+        nmap = xrng.choice([{"RA": "A", "RB": "AA", "RC": "PA"}, {"RA": "AA", "RB": "A", "RC": "AAA"}, {"RA": "A", "RB": "A", "RC": "A"},
+                            {"RA": "RA", "RB": "RB", "RC": "RC"}])
+        shift = xrng.choice([0, 0, 5, 100])
+        nodes = [[kmap[k], rmap(resid), nmap[name], [a + shift for a in frag], [[u + shift, v + shift] for u, v in fedges]]
+                 for k, resid, name, frag, fedges in inst["nodes"]]
+        if xrng.random() < 0.5:
+            xrng.shuffle(nodes)
+        out.append(dict(nodes=nodes, redges=[[kmap[u], kmap[v]] for u, v in inst["redges"]],
+                        medges=[[u + shift, v + shift] for u, v in inst["medges"]]))
+    return out
+
+
 def run_direct(ctx):
-    items = [one_direct_case(inst) for inst in direct_instances()]
+    base = direct_instances()
+    variants = direct_variants(base, derived_rng(ctx.rng, "direct"), ctx.budget(160, 768))
+    ctx.tally(direct_relabelled_variants=len(variants))
+    items = [one_direct_case(inst) for inst in base + variants]
     answers = ctx.driver.ask([item["req"] for item in items])
     for item, ans in zip(items, answers):
         judge_direct(ctx, item, ans)
     ctx.tally(direct_instances="exhaustive: %d (2 residues x 2 atoms: 64 edge sets x 4 fragment choices; "
-                               "3 residues: 64 edge sets x 8 residue graphs)" % len(items),
+                               "3 residues: 64 edge sets x 8 residue graphs) + %d relabelled variants" % (len(base), len(variants)),
               direct_with_hypotheses=sum(1 for item in items if item["hyp"]))
 
 
@@ -566,10 +954,80 @@ def render_top(top):
             lines.append("[ dihedrals ]")
             for a, b, c, d in mol["dihedrals"]:
                 lines.append("%d %d %d %d 1 0 2 1" % (a + 1, b + 1, c + 1, d + 1))
+        for section in ("virtual_sites2", "virtual_sitesn"):
+            rows = [v for v in mol.get("vsites", []) if v[0] == section]
+            if rows:
+                lines.append("[ %s ]" % section)
+                for _section, site, frm in rows:
+                    if section == "virtual_sites2":
+                        lines.append("%d %d %d 1 0.5" % (site + 1, frm[0] + 1, frm[1] + 1))
+                    else:
+                        lines.append("%d 1 %s" % (site + 1, " ".join(str(a + 1) for a in frm)))
     lines += ["[ system ]", "verif", "[ molecules ]"]
-    for mol in top["mols"]:
-        lines.append("%s %d" % (mol["name"], mol["count"]))
+    for midx, count in molecule_lines(top):
+        lines.append("%s %d" % (top["mols"][midx]["name"], count))
     return "\n".join(lines) + "\n"
+
+
+def molecule_lines(top):
+    """the `[ molecules ]` lines as (index of the molecule type, count); default: every type once, in definition
+    order; `top["order"]` lists them explicitly (another order, a name repeated on non-adjacent lines, counts > 1)"""
+    if top.get("order"):
+        return [(int(m), int(c)) for m, c in top["order"]]
+    return [(i, mol["count"]) for i, mol in enumerate(top["mols"])]
+
+
+def instances(top):
+    """the molecules of the system in file order (one entry per copy)"""
+    return [top["mols"][midx] for midx, count in molecule_lines(top) for _ in range(count)]
+
+
+def bond_edges(mol):
+    """what connects atoms for the property: bonds, constraints and virtual-site constructions"""
+    return [list(e) for e in mol["edges"]] + [[site, a] for _s, site, frm in mol.get("vsites", []) for a in frm]
+
+
+def residues_of(mol):
+    """atom keys per residue, residues in resid order"""
+    per = {}
+    for key, resid, _resname in mol["atoms"]:
+        per.setdefault(resid, []).append(key)
+    return [per[r] for r in sorted(per)]
+
+
+def write_gro(path, npos, box):
+    """`npos` positions on a serpentine line with 0.4 nm between neighbours (what a residue-level or an atom-level
+    starting structure is for this check: only the NUMBER of positions decides which residues count as supplied)"""
+    lines = ["verif", str(npos)]
+    for i in range(npos):
+        row, col = divmod(i, 14)
+        col = col if row % 2 == 0 else 13 - col
+        layer, row = divmod(row, 14)
+        lines.append("%5d%-5s%5s%5d%8.3f%8.3f%8.3f" % ((i + 1) % 100000, "RES", "R", (i + 1) % 100000,
+                                                       1.0 + 0.4 * col, 1.0 + 0.4 * row, 1.0 + 0.4 * layer))
+    lines.append("%10.5f%10.5f%10.5f" % (box, box, box))
+    with open(path, "w") as handle:
+        handle.write("\n".join(lines) + "\n")
+
+
+def coord_arguments(top, tmp, box):
+    """the starting-structure arguments of gen_coords a case asks for.  `top["coords"]` = {"meta": k} (a residue-level
+    structure, `-mc`, with positions for the first k residues of the system), {"mol": k} (an atom-level structure, `-c`,
+    with the atoms of the first k residues), both, and optionally "build_res" (`-res`: residue names to rebuild)"""
+    spec = top.get("coords") or {}
+    kwargs = {}
+    sizes = [len(atoms) for mol in instances(top) for atoms in residues_of(mol)]
+    if spec.get("mol"):
+        path = os.path.join(tmp, "start.gro")
+        write_gro(path, sum(sizes[:int(spec["mol"])]), box)
+        kwargs["coordpath"] = pathlib.Path(path)
+    if spec.get("meta"):
+        path = os.path.join(tmp, "start_meta.gro")
+        write_gro(path, min(int(spec["meta"]), len(sizes)), box)
+        kwargs["coordpath_meta"] = pathlib.Path(path)
+    if spec.get("build_res"):
+        kwargs["build_res"] = list(spec["build_res"])
+    return kwargs
 
 
 def one_gate_case(ctx, top, full):
@@ -595,16 +1053,14 @@ def one_gate_case(ctx, top, full):
         if full:
             out = os.path.join(tmp, "out.gro")
             try:
-                gc.gen_coords(toppath=pathlib.Path(path), outpath=pathlib.Path(out), name="verif", box=[8.0, 8.0, 8.0])
+                gc.gen_coords(toppath=pathlib.Path(path), outpath=pathlib.Path(out), name="verif", box=[8.0, 8.0, 8.0],
+                              **coord_arguments(top, tmp, 8.0))
                 full_result = "built" if os.path.exists(out) else "no-output"
             except IOError:
                 full_result = "refused" if not os.path.exists(out) else "refused-but-wrote"
             except Exception as err:  # pylint: disable=broad-except
                 full_result = "other:" + type(err).__name__
-    mols = []
-    for mol in top["mols"]:
-        for _ in range(mol["count"]):
-            mols.append(dict(atoms=mol["atoms"], edges=[list(e) for e in mol["edges"]]))
+    mols = [dict(atoms=mol["atoms"], edges=bond_edges(mol)) for mol in instances(top)]
     return dict(top=top, replay=replay, raised=raised, full=full_result, req=dict(op="gate", mols=mols))
 
 
@@ -628,17 +1084,130 @@ def judge_gate(ctx, item, ans, known):
             ctx.oracle_fail(shape, what + " | %s" % json.dumps(item["top"])[:400], replay)
     if item["full"] is not None:
         expect = "refused" if item["raised"] else "built"
-        ctx.tally(gen_coords_full=item["full"])
+        coords = item["top"].get("coords") or {}
+        how = "+".join(sorted(k for k in coords if coords[k])) or "from-scratch"
+        ctx.tally(gen_coords_full=item["full"], gen_coords_input="%s:%s" % (how, item["full"]))
         if item["full"] != expect:
-            ctx.oracle_fail("gen_coords-gate-mismatch", "gen_coords %s although _check_molecules %s" %
-                            (item["full"], "raises" if item["raised"] else "passes"), replay)
+            ctx.oracle_fail("gen_coords-gate-mismatch", "gen_coords %s although _check_molecules %s (starting structure: %s)" %
+                            (item["full"], "raises" if item["raised"] else "passes", coords or "none"), replay)
+        # the property on the complete command, whatever starting structure is supplied: refuse iff the atoms of
+        # some molecule are not all connected (shape classification as above)
+        if want and item["full"] == "built" and item["raised"] == want:
+            shape = "isolated-atom-inside-connected-residue-graph" if not ans["raises"] else "disconnected-molecule-built"
+            if shape in WITHHELD and shape not in known:
+                ctx.tally(withheld_shape=shape)
+            else:
+                ctx.oracle_fail(shape, "gen_coords builds (writes a structure for) a system in which the atoms of a molecule are not "
+                                "all connected; starting structure given: %s | %s" % (coords or "none", json.dumps(item["top"])[:400]), replay)
+        elif not want and item["full"] != "built" and item["raised"] == want:
+            ctx.oracle_fail("connected-molecule-refused", "gen_coords does not build (%s) a system all of whose molecules are connected; "
+                            "starting structure given: %s | %s" % (item["full"], coords or "none", json.dumps(item["top"])[:400]), replay)
     natoms = sum(len(m["atoms"]) for m in item["top"]["mols"])
     ctx.case(("gate", json.dumps(item["top"], sort_keys=True)) if natoms >= 2 else None, stream="gate",
              gate=("raises" if item["raised"] else "passes"), atoms_connected=not want)
 
 
+def residue_graph_connected(mol):
+    """harness-side classification used only to SELECT inputs (so that every run has disconnected molecules with every
+    kind of starting structure); the oracle is the Lean specification"""
+    residues = residues_of(mol)
+    owner = {a: i for i, atoms in enumerate(residues) for a in atoms}
+    parent = list(range(len(residues)))
+
+    def find(x):
+        while parent[x] != x:
+            parent[x] = parent[parent[x]]
+            x = parent[x]
+        return x
+    for u, v in bond_edges(mol):
+        parent[find(owner[u])] = find(owner[v])
+    return len({find(i) for i in range(len(residues))}) <= 1
+
+
+def add_virtual_site(mol, xrng):
+    """append a virtual site to the last residue of a molecule type, constructed from atoms of that residue"""
+    last = residues_of(mol)[-1]
+    _key, resid, resname = mol["atoms"][last[0]]
+    site = len(mol["atoms"])
+    mol["atoms"].append([site, resid, resname])
+    if len(last) >= 2 and xrng.random() < 0.5:
+        mol.setdefault("vsites", []).append(["virtual_sites2", site, xrng.sample(last, 2)])
+    else:
+        mol.setdefault("vsites", []).append(["virtual_sitesn", site, xrng.sample(last, xrng.randint(1, len(last)))])
+
+
+def extra_gate_tops(ctx, xrng):
+    """the added dimensions of the gate stream, all through the complete `gen_coords`: starting structures (`-mc`
+    residue-level, `-c` atom-level, both, `-res`) covering ALL or SOME residues, for connected and for disconnected
+    molecules; several molecule types with the disconnected one not first, `[ molecules ]` lines in another order /
+    a name repeated on non-adjacent lines / counts > 1 (up to 25 copies); virtual sites; residue names that contain each
+    other; resids that do not start at 1"""
+    import copy
+    connected, broken = [], []
+    for _ in range(400):
+        if len(connected) >= ctx.budget(8, 60) and len(broken) >= ctx.budget(8, 60):
+            break
+        top = gen_top(xrng)
+        ok = [residue_graph_connected(mol) for mol in top["mols"]]
+        (connected if all(ok) else broken).append(top)
+    out = []
+
+    def total_residues(top):
+        return sum(len(residues_of(mol)) for mol in instances(top))
+
+    def with_coords(top, kind):
+        top = copy.deepcopy(top)
+        nres = total_residues(top)
+        some = xrng.randint(1, max(1, nres - 1))
+        top["coords"] = {"meta-all": {"meta": nres}, "meta-some": {"meta": some}, "mol-all": {"mol": nres}, "mol-some": {"mol": some},
+                         "both": {"mol": nres, "meta": some}, "meta-all+res": {"meta": nres, "build_res": [xrng.choice(["AA", "BB"])]},
+                         "mol-all+res": {"mol": nres, "build_res": [xrng.choice(["AA", "BB"])]}}[kind]
+        return top
+    kinds = ["meta-all", "mol-all", "meta-some", "mol-some", "both", "meta-all+res", "mol-all+res", "meta-all"]
+    for idx, top in enumerate(broken):
+        out.append((with_coords(top, kinds[idx % len(kinds)]), "coords-disconnected:" + kinds[idx % len(kinds)]))
+    for idx, top in enumerate(connected):
+        out.append((with_coords(top, kinds[idx % len(kinds)]), "coords-connected:" + kinds[idx % len(kinds)]))
+    # several molecule types, the disconnected one NOT first; `[ molecules ]` lines reordered / repeated / counts > 1
+    for idx in range(min(len(connected), len(broken), ctx.budget(4, 30))):
+        good = copy.deepcopy(xrng.choice(connected[idx]["mols"]))
+        bad = copy.deepcopy(next(m for m in broken[idx]["mols"] if not residue_graph_connected(m)))
+        good["name"], bad["name"] = "M0", "M1"
+        top = dict(mols=[good, bad])
+        top["order"] = xrng.choice([[[0, 1], [1, 1]], [[0, 2], [1, 1], [0, 1]], [[0, 1], [1, 2]], [[0, 3], [1, 1]]])
+        out.append((with_coords(top, xrng.choice(["meta-all", "meta-all", "mol-all", "meta-some"])), "disconnected-not-first"))
+        only_good = dict(mols=[copy.deepcopy(good), dict(copy.deepcopy(xrng.choice(connected[idx - 1]["mols"])), name="M1")],
+                         order=xrng.choice([[[1, 1], [0, 2]], [[0, 1], [1, 1], [0, 1]], [[1, 2], [0, 2]]]))
+        out.append((with_coords(only_good, xrng.choice(["meta-all", "mol-some", "meta-some", "both"])), "molecule-lines-reordered"))
+    # more than 20 copies, the disconnected type last
+    if connected and broken:
+        good = copy.deepcopy(min(connected[0]["mols"], key=lambda m: len(m["atoms"])))
+        bad = copy.deepcopy(next(m for m in broken[0]["mols"] if not residue_graph_connected(m)))
+        good["name"], bad["name"] = "M0", "M1"
+        out.append((dict(mols=[good, bad], order=[[0, xrng.choice([20, 21, 25])], [1, 1]]), "more-than-20-molecules"))
+        top = with_coords(dict(mols=[copy.deepcopy(good)], order=[[0, xrng.choice([21, 22])]]), "meta-some")
+        out.append((top, "more-than-20-molecules"))
+    # virtual sites (constructed from atoms of their own residue): connected by the construction, no bond of their own
+    for idx, top in enumerate(connected[:ctx.budget(3, 20)] + broken[:ctx.budget(2, 10)]):
+        top = copy.deepcopy(top)
+        for mol in top["mols"]:
+            if xrng.random() < 0.7 or mol is top["mols"][0]:
+                add_virtual_site(mol, xrng)
+        out.append((with_coords(top, "meta-all") if idx % 2 else top, "virtual-sites"))
+    # residue names that contain each other, resids from an offset
+    for idx, top in enumerate(connected[-ctx.budget(2, 10):] + broken[-ctx.budget(2, 10):]):
+        top = copy.deepcopy(top)
+        names = xrng.choice([{"AA": "A", "BB": "AA"}, {"AA": "PAA", "BB": "AA"}, {"AA": "AAA", "BB": "AA"}])
+        offset = xrng.choice([0, 6, 27])
+        for mol in top["mols"]:
+            mol["atoms"] = [[k, r + offset, names[n]] for k, r, n in mol["atoms"]]
+        out.append((with_coords(top, "mol-some") if idx % 2 else top, "names-and-resids"))
+    return out
+
+
 def run_gate(ctx, known):
     rng = ctx.rng
+    xrng = derived_rng(rng, "gate")
     tops = [c for c in corpus_cases("gate")]
     for _ in range(ctx.budget(120, 1500)):
         tops.append(gen_top(rng))
@@ -646,6 +1215,11 @@ def run_gate(ctx, known):
     items = []
     for idx, top in enumerate(tops):
         item = one_gate_case(ctx, top, full=idx < nfull)
+        if item is not None:
+            items.append(item)
+    for top, label in extra_gate_tops(ctx, xrng):
+        ctx.tally(added_dimension_gate=label.split(":")[0])
+        item = one_gate_case(ctx, top, full=True)
         if item is not None:
             items.append(item)
     answers = ctx.driver.ask([item["req"] for item in items]) if items else []
@@ -679,8 +1253,12 @@ def run(ctx):
     ctx.assumptions += [
         "residue ownership of atoms for the oracle = residues in resid order own consecutive node keys (the layout C01 states)",
         "a warning 'names both residues' when its text contains resid and resname of both; the wording is not pinned",
-        "the complete gen_coords is run on a few topologies only (quick 6 / thorough 40); all others go through "
-        "Topology.from_gmx_topfile + preprocess + _check_molecules",
+        "the complete gen_coords is run on some topologies only (quick 6 + ~40 with starting structures / thorough 40 + ~300); "
+        "all others go through Topology.from_gmx_topfile + preprocess + _check_molecules",
+        "a virtual site counts as connected to the atoms it is constructed from (the refusal message's own wording: 'bonds, "
+        "constraints or virtual-sites'); generated sites are constructed from atoms of their own residue",
+        "starting structures are .gro files with the right NUMBER of positions (a serpentine line, 0.4 nm apart): which residues "
+        "count as supplied depends on the count only",
     ]
     ctx.extra["explanation"] = ("oracle = C10M.specMissing (a requested residue edge is to be reported iff no atom-level edge joins the "
                                 "two residues) evaluated by the Lean driver on the real output molecule, compared with the WARNING "
